@@ -486,15 +486,15 @@ def run(tier, seed):
     if sk is not None:
         run.add_verdicts([report.Verdict("encoder sanity::the independent OUTPUT2 encoder reproduces the key/record skeleton of the Nastran-written sample double_le.op2", "proved" if sk["agree"] else "undecided",
                                          "structural comparison", 0.0, "vacuity", OP2, sk if not sk["agree"] else {"items_compared": len(sk["real"])})])
-    ev1, f1 = op4_bounded(seed, tier == "quick")
+    ev1, f1 = report.guarded(run, op4_bounded, seed, tier == "quick")
     run.bounded.append(dict(name="independent OUTPUT4 encoder -> real op4.load/dir: binary {byte order} x {32/64-bit} x {dense, bigmat, nonbigmat} x {types 1-4} x string partitions (maximal runs, split, "
                                  "merged with explicit zeros) x read modes, runs >= 3000 values; ASCII E/D exponents, widths 16/23/24/26, 3 or 5 per line; named subset; dir() listing",
                             evaluations=ev1, failures=0 if f1 is None else 1, label="bounded (never counted as proved)"))
-    ev3, f3 = op4_subsets_bounded(seed, tier == "quick")
+    ev3, f3 = report.guarded(run, op4_subsets_bounded, seed, tier == "quick")
     run.bounded.append(dict(name="independent OUTPUT4 encoder, files mixing per-matrix variants (layout, precision, string partition, wide |I16 / ordinary ASCII headers incl. a 10,000,00x-row matrix): "
                                  "every subset of the names (both orders for pairs; list and dict interfaces) x read modes == filtering the full read; dir() listing",
                             evaluations=ev3, failures=0 if f3 is None else 1, label="bounded (never counted as proved)"))
-    ev2, f2 = op2_bounded(seed, tier == "quick")
+    ev2, f2 = report.guarded(run, op2_bounded, seed, tier == "quick")
     run.bounded.append(dict(name="independent OUTPUT2 encoder -> real op2.OP2: {byte order} x {32/64-bit keys} x {with/without file header} x string partitions; matrices of types 1-4 incl. >= 3000-value "
                                  "strings, repeated names, multi-part table records (3300-word record); directory byte ranges vs encoder offsets, rdop2mats all/subset, record reads, skip positions",
                             evaluations=ev2, failures=0 if f2 is None else 1, label="bounded (never counted as proved)"))
